@@ -404,6 +404,23 @@ def run_real(kind, params, steps):
             s = {'users': sorted(inv.get(e) for e in res.users), 'queue': [inv.get(e) for e in res.queue],
                  'preempted': sorted((a, b) for a, b, _, _ in preempted), 'count': res.count,
                  'preempt_details': [(a, u, ok) for a, b, u, ok in preempted]}
+        # hidden state of the real object: for every attribute its type and whether it is empty (a request queue that was
+        # re-bound to a plain list, a cache, a flag that a release path sets) - part of the visited-state key of the search
+        shape = []
+        names = set(getattr(res, '__dict__', {}))
+        for klass in type(res).__mro__:
+            sl = klass.__dict__.get('__slots__', ())
+            names |= set([sl] if isinstance(sl, str) else sl)
+        for n in sorted(names):
+            if n == '__weakref__' or not hasattr(res, n):
+                continue
+            v = getattr(res, n)
+            try:
+                filled = len(v) > 0
+            except Exception:       # noqa
+                filled = None if not isinstance(v, (bool, type(None))) else v
+            shape.append((n, type(v).__name__, filled))
+        s['shape'] = tuple(shape)
         s['granted'] = sorted(grants)
         s['rejected'] = sorted(rejected)
         s['triggered'] = sorted(i for i, e in evs.items() if e.triggered)
@@ -541,7 +558,7 @@ def search(tname, depth, pairs, first=None, pair_depth=2):
     seen = set()
     frontier = collections.deque()
     m0 = Model(kind, params)
-    seen.add(m0.state())
+    seen.add((m0.state(), None))
     frontier.append([])
     transitions = 0
     nontrivial = 0
@@ -582,7 +599,7 @@ def search(tname, depth, pairs, first=None, pair_depth=2):
                 if msgs:
                     viol.append({'faults': {'type': tname, 'steps': steps}, 'msgs': msgs})
                     break
-                st = mm.state()
+                st = (mm.state(), snaps[-1].get('shape') if snaps and outcome is None and len(snaps) == len(steps) else None)
                 if st not in seen:
                     seen.add(st)
                     frontier.append(steps)
